@@ -491,7 +491,7 @@ func (s *Scheme) Sign(c context.Context, msgHash []byte, topic string) ([]byte, 
 		}
 
 		s.Logger.Infof("Parties %v out of %v (mapped to %v) were selected to sign message hash %s with a topic of %s",
-			signers, membership.universalIdentifiers, partyIDs, msgHashHex[:8], topicHashText[:8])
+			signers, membership.universalIdentifiers, partyIDs, shortHex(msgHashHex), topicHashText[:8])
 
 		s.Logger.Debugf("Synchronization on topic %s took %v", topicHashText[:8], time.Since(start))
 
@@ -575,7 +575,7 @@ func (s *Scheme) Sign(c context.Context, msgHash []byte, topic string) ([]byte, 
 	case <-ctx.Done():
 		return nil, ctx.Err()
 	case res := <-resultChan:
-		s.Logger.Infof("Successfully signed message hash %s", msgHashHex[:8])
+		s.Logger.Infof("Successfully signed message hash %s", shortHex(msgHashHex))
 		return res.sig, res.err
 	}
 }
@@ -878,6 +878,14 @@ func (r *threadSafeRBC) Receive(m RBCMessage, from uint16) {
 	defer r.lock.Unlock()
 
 	r.h(m, from)
+}
+
+// shortHex abbreviates a hex string for logging
+func shortHex(s string) string {
+	if len(s) > 8 {
+		return s[:8]
+	}
+	return s
 }
 
 func hash(in []byte) []byte {
